@@ -10,11 +10,14 @@ package main
 // steps is established with the res.notified / rr.add / rr.rm / loop.bev hooks.
 
 import (
+	"bufio"
+	"bytes"
 	"encoding/json"
 	"errors"
 	"fmt"
 	"net"
 	"sort"
+	"strings"
 	"sync"
 	"sync/atomic"
 	"testing"
@@ -37,6 +40,9 @@ type vfResRun struct {
 	changes  int32
 	mu       sync.Mutex
 	removed  []Backend
+	lmsg     chan string
+	seen     map[string]bool // every backend address (ip:port) the rotation of this case has ever held
+	nprobe   int
 }
 
 func (r *vfResRun) hook(ev string, kv ...interface{}) {
@@ -44,6 +50,10 @@ func (r *vfResRun) hook(ev string, kv ...interface{}) {
 	case "loop.bev":
 		if len(kv) > 0 && kv[0] == interface{}(r.p) {
 			r.bev <- ev
+		}
+	case "loop.msg":
+		if len(kv) > 0 && kv[0] == interface{}(r.p) && r.lmsg != nil {
+			r.lmsg <- ev
 		}
 	case "res.notified":
 		if len(kv) > 0 && kv[0] == interface{}(dynamicHostResolver) {
@@ -147,8 +157,58 @@ func (r *vfResRun) step(id, name, proto, port string, o vfResOutcome) {
 		}
 	}
 	sort.Strings(known)
+	// ... and behaviourally: a dialog-establishing response from every address the rotation has ever held goes through
+	// the real message loop; it is attributed (the dialog gets pinned) to a backend object or not.  The last address
+	// probed is the proxy's most recent responder when the next resolution outcome arrives.
+	for a := range cur {
+		r.seen[a] = true
+	}
+	for a := range prev {
+		r.seen[a] = true
+	}
+	var univ []string
+	for a := range r.seen {
+		univ = append(univ, a)
+	}
+	sort.Strings(univ)
+	attr, stale := []string{}, []string{}
+	for _, a := range univ {
+		if pm != "" {
+			break
+		}
+		r.nprobe++
+		i := strings.LastIndexByte(a, ':')
+		prt := 0
+		fmt.Sscanf(a[i+1:], "%d", &prt)
+		raw := vfRender("SIP/2.0 200 OK", []vfHdr{{"Via", fmt.Sprintf("SIP/2.0/UDP %s:5060;branch=z9hG4bKprobe%d", r.g.ip("10.0.0.1"), r.nprobe)},
+			{"From", fmt.Sprintf("<sip:a@a.example>;tag=pf%d", r.nprobe)}, {"To", fmt.Sprintf("<sip:service@svc.example.com>;tag=pt%d", r.nprobe)},
+			{"Call-ID", fmt.Sprintf("probe-%d@%s", r.nprobe, r.g.base)}, {"CSeq", "1 INVITE"}, {"Content-Length", "0"}}, nil)
+		msg, err := ParseMessage(bufio.NewReaderSize(bytes.NewBuffer(raw), len(raw)))
+		if err != nil {
+			r.t.Fatalf("VF-INFRA probe response not accepted by the parser: %v", err)
+		}
+		dlg, err := msg.GetDialog()
+		if err != nil {
+			r.t.Fatalf("VF-INFRA probe response has no dialog: %v", err)
+		}
+		r.p.HandleRawMessage(NewRawMessage(a[:i], prt, &vfST{proto: "UDP", addr: r.g.ip("10.0.0.1"), port: 5060}, true, msg))
+		select {
+		case <-r.lmsg:
+		case <-time.After(20 * time.Second):
+			pm = "stuck: the message loop did not process a response"
+			continue
+		}
+		if be, err := r.p.dialogBasedBackends.GetBackend(dlg); err == nil && be != nil {
+			if cb, ok := cur[a]; ok && cb == be {
+				attr = append(attr, a)
+			} else {
+				stale = append(stale, a)
+			}
+			r.p.dialogBasedBackends.RemoveDialog(dlg)
+		}
+	}
 	r.tr.Emit(vfM{"ev": "resolved", "case": id, "cls": proto, "name": name, "ok": o.Ok, "addrs": addrs2(addrs), "member": member, "known": known,
-		"closed_ok": closedOK, "open_ok": openOK, "panic": pm})
+		"attributed": attr, "attributed_stale": stale, "closed_ok": closedOK, "open_ok": openOK, "panic": pm})
 }
 
 func addrs2(a []string) []string {
@@ -172,6 +232,7 @@ func (r *vfResRun) open(id string, protos []string, names []string, ports []stri
 		r.t.Fatalf("VF-INFRA CreateRoundRobinBackend: %v", err)
 	}
 	r.rb = rb
+	r.seen = map[string]bool{}
 	rb.AddBackendChangeListener(r.p)
 	r.tr.Emit(vfM{"ev": "reset", "case": id, "ports": pm})
 }
@@ -179,7 +240,7 @@ func (r *vfResRun) open(id string, protos []string, names []string, ports []stri
 func TestVfResolver(t *testing.T) {
 	tr := vfOpenTrace(t, "VERIF_TRACE")
 	defer tr.Close()
-	r := &vfResRun{t: t, tr: tr, bev: make(chan string, 4096), notified: make(chan struct{}, 64)}
+	r := &vfResRun{t: t, tr: tr, bev: make(chan string, 4096), notified: make(chan struct{}, 64), lmsg: make(chan string, 64)}
 	r.g = &vfGamma{base: vfIPBase(), rnd: vfRand(19)}
 	// an own resolver instance with a long interval: its periodic loop never interferes
 	dynamicHostResolver.Stop()
